@@ -52,7 +52,7 @@ PROPS = {
     },
     'C01': {
         'level': 'model_checking',
-        'claim': 'Exhaustive within scope: closure over all insert/hinted-insert/erase/clear/swap histories on bintree and rbtree for pools of 6-11 (thorough 8-13) elements with distinct, paired, all-equal and heavy key multisets and three comparators; every state audited through find and both traversals with early stops at every visit. The second tree object is of another kind (own comparator, private pointer, node offset) and receives the content by swap, then takes an insert and an erase; odd configurations are built with the static initialiser macros; every comparator / visitor / clear callback verifies its private pointer. Plus an enumerated family of large histories (100-5000 elements, five insertion and erase orders).',
+        'claim': 'Exhaustive within scope: closure over all insert/hinted-insert/erase/clear/swap histories on bintree and rbtree for pools of 6-11 (thorough 8-13) elements with distinct, paired, all-equal and heavy key multisets and three comparators; every state audited through find and both traversals with early stops at every visit; every visit callback walks a third, constant tree (alternately completely and stopped early) whose own visits and result are judged. swap(T,T) followed by insert and erase is an operation of the alphabet. The second tree object is of another kind (own comparator, private pointer, node offset) and receives the content by swap, then takes an insert and an erase; odd configurations are built with the static initialiser macros; every comparator / visitor / clear callback verifies its private pointer. Plus an enumerated family of large histories (100-5000 elements, five insertion and erase orders).',
         'note': E1_NOTE,
         'technique': 'explicit-state BFS to closure on the real code vs set model',
         'jobs': [{'world': 'tree', 'src': 'worlds/tree_world.c', 'lib': ['bintree.c', 'rbtree.c'], 'wflags': ['-DTREE_PRIVATE=0'], 'flavours': RELDBG_ALWAYS}, BIG_JOB],
@@ -63,7 +63,7 @@ PROPS = {
     },
     'C02': {
         'level': 'model_checking',
-        'claim': 'Exhaustive within scope: every red-black tree shape and colouring reachable with up to 11 (thorough 13) elements by any insert/erase order, red-black rules and the height bound evaluated in every state. Includes swap with a tree object of another element layout followed by insert/erase through the receiving object, and trees of up to 5000 nodes from an enumerated family of insertion/erase orders.',
+        'claim': 'Exhaustive within scope: every red-black tree shape and colouring reachable with up to 11 (thorough 13) elements by any insert/erase order, red-black rules and the height bound evaluated in every state. Includes swap with a tree object of another element layout followed by insert/erase through the receiving object, swap of a tree with itself followed by insert/erase, and trees of up to 5000 nodes from an enumerated family of insertion/erase orders.',
         'note': E1_NOTE,
         'technique': 'explicit-state BFS to closure on the real code with a structural invariant in every state',
         'jobs': [{'world': 'tree', 'src': 'worlds/tree_world.c', 'lib': ['bintree.c', 'rbtree.c'], 'flavours': RELDBG_ALWAYS}, BIG_JOB_C02],
@@ -158,7 +158,7 @@ PROPS = {
     },
     'C14': {
         'level': 'model_checking',
-        'claim': 'Exhaustive within scope: closure over alloc (0..4 elements, unrepresentable and refused counts) / set (two external buffers) / slice (into another object and in place, bounds from {0,1,2,len-1,len,len+1,nm,nm+1,nm-off,nm-off+1,SIZE_MAX-1,SIZE_MAX,SIZE_MAX-off+1}) / unslice / reset / release on three array objects; every state audited with at() at {0,len-1,len,SIZE_MAX} against base+(off+i)*sz inside the buffer, and with allocation accounting (at least one live block per referenced buffer, none once every reference is gone, no double/foreign free). release is driven with and without out-parameter; odd configurations are built with CSTL_ARRAY_INITIALIZER; plus 65535-70000 simultaneous views of one buffer.',
+        'claim': 'Exhaustive within scope: closure over alloc (0..4 elements, unrepresentable and refused counts) / set (two external buffers) / slice (into another object and in place, bounds from {0,1,2,len-1,len,len+1,nm,nm+1,nm-off,nm-off+1,SIZE_MAX-1,SIZE_MAX,SIZE_MAX-off+1}) / unslice / reset / release on three array objects; every state audited with at() at {0,len-1,len,SIZE_MAX} against base+(off+i)*sz inside the buffer, and with allocation accounting (the storage block of a buffer is live while a reference exists and dead as soon as the last one is gone; bookkeeping blocks the library may cache are not counted; no double/foreign free). release is driven with and without out-parameter; odd configurations are built with CSTL_ARRAY_INITIALIZER; plus 65535-70000 simultaneous views of one buffer.',
         'note': E1_NOTE + ' Open cases accepted either way: slice(0,0) of an object without buffer, and a range past the object\'s own length but inside the buffer.',
         'technique': 'explicit-state BFS to closure on the real code vs view/buffer reference model + allocation accounting',
         'jobs': [{'world': 'array', 'src': 'worlds/array_world.c', 'lib': ['array.c', 'memory.c'], 'flavours': RELDBG_ALWAYS}, BIG_JOB],
@@ -167,7 +167,7 @@ PROPS = {
     },
     'C05': {
         'level': 'model_checking',
-        'claim': 'Exhaustive within scope: closure over alloc (with clear callback, and of size 0) / share / swap / reset / weak_from / lock / weak_reset / weak_swap on 3 (thorough up to 5) shared and 2 (thorough up to 3) weak pointer objects, and alloc / release / swap / reset on 2 unique pointer objects; for every single operation the sequence of destruction events (clear callback, free of the managed block, free of the bookkeeping block) observed through the callback and the allocation layer must equal the reference model\'s prediction for that operation - which pins never-earlier and never-later; get(), unique() and the number of live blocks are compared in every state. One configuration uses a clear callback that resets every weak pointer referring to the allocation being cleared; odd configurations are built with the *_PTR_INITIALIZER macros; plus 65535, 65536, 65537 and 70000 simultaneous owners / weak references of one allocation, released in two orders.',
+        'claim': 'Exhaustive within scope: closure over alloc (with clear callback, and of size 0) / share / swap / reset / weak_from / lock / weak_reset / weak_swap on 3 (thorough up to 5) shared and 2 (thorough up to 3) weak pointer objects, and alloc / release / swap (also of a pointer with itself, for shared, weak and unique pointers) / reset on 2 unique pointer objects; for every single operation the sequence of destruction events (clear callback, free of the managed block, free of the bookkeeping block) observed through the callback and the allocation layer must equal the reference model\'s prediction for that operation - which pins never-earlier and never-later; get(), unique() and the number of live blocks are compared in every state. One configuration uses a clear callback that resets every weak pointer referring to the allocation being cleared; odd configurations are built with the *_PTR_INITIALIZER macros; plus 65535, 65536, 65537 and 70000 simultaneous owners / weak references of one allocation, released in two orders.',
         'note': E1_NOTE + ' lock() resets its target first (as documented by the code), so locking into the last owner of the same allocation destroys it and yields an empty pointer.',
         'technique': 'explicit-state BFS to closure on the real code vs reference-count model with per-operation destruction-event oracle',
         'jobs': [{'world': 'ptr', 'src': 'worlds/ptr_world.c', 'lib': ['memory.c'], 'flavours': RELDBG_ALWAYS}, BIG_JOB],
@@ -177,7 +177,7 @@ PROPS = {
     'C06': {
         'level': 'model_checking',
         'engine': 'schedx',
-        'claim': 'Exhaustive over sequentially consistent interleavings: the unmodified src/memory.c (compiled with -fsanitize=thread as an instrumentation pass, TSan runtime NOT linked) runs under a hand-written scheduler in which every atomic operation and every plain load/store of the bookkeeping block, every malloc/free and every sched_yield is a scheduling point; for every 2-thread combination of programs of length <= 2 (thorough 3 x 2) over {reset, share, lock+get, weak_from, weak_reset, unique} x 4 initial reference configurations, all 3-thread single-operation combinations, last-owner reset against two lockers, and 4-thread combinations, ALL interleavings are explored depth-first with visited-state pruning (state = arena bytes + block table + scenario world + every thread\'s real continuation: saved registers and live coroutine stack). Oracles on every execution: exactly-once clear/free of memory and bookkeeping, never while an owner is held, lock soundness, no access into a freed block, no double free, no deadlock (a spinning thread is blocked until memory changes), a data race = two co-enabled conflicting accesses of which one is not atomic, plus a vector-clock happens-before race check that honours the memory orders actually used (so a weakened order is reported too).',
+        'claim': 'Exhaustive over sequentially consistent interleavings: the unmodified src/memory.c (compiled with -fsanitize=thread as an instrumentation pass, TSan runtime NOT linked) runs under a hand-written scheduler in which every atomic operation and every plain load/store of the bookkeeping block, every malloc/free and every sched_yield is a scheduling point; for every 2-thread combination of programs of length <= 2 (thorough 3 x 2) over {reset, share, lock+get, weak_from, weak_reset, unique, alloc(own) = re-targeting the thread\'s owner to a private allocation} x 4 initial reference configurations, all 3-thread single-operation combinations, last-owner reset against two lockers, and 4-thread combinations, ALL interleavings are explored depth-first with visited-state pruning (state = arena bytes + the library\'s static storage + block table + scenario world + every thread\'s real continuation: saved registers and live coroutine stack). Oracles on every execution: exactly-once clear/free of memory and bookkeeping, never while an owner is held, lock soundness, no access into a freed block, no double free, no deadlock (a spinning thread is blocked until memory changes), a data race = two co-enabled conflicting accesses of which one is not atomic, plus a vector-clock happens-before race check that honours the memory orders actually used (so a weakened order is reported too).',
         'note': 'Sequentially consistent executions of the accesses the compiler kept (gcc 12 -O2 and -O0); weak-memory reorderings are not modelled (every atomic operation of memory.c is seq_cst today; the number of weaker ones executed by scheduled threads is counted in the evidence). At most 4 threads. The harness\'s own probes of the managed memory are liveness checks, not race participants.',
         'technique': 'stateless depth-first exploration of all thread interleavings of the real code under a controlled scheduler (TSan compiler ABI with own runtime), visited-state pruning on real continuations',
         'jobs': [{'world': 'c06', 'src': 'worlds/c06_world.c', 'lib': ['memory.c'], 'san': ['-g', '-fsanitize=thread'], 'wsan': ['-g'], 'extra_src': ['engine/sched.c'],
@@ -189,7 +189,7 @@ PROPS = {
     'C16': {
         'level': 'fault_enumeration',
         'engine': 'faultx',
-        'claim': 'Exhaustive fault enumeration: for each of nine operation scripts (map, vector with constructor/destructor, string, wstring, hash incl. failed resize followed by later successful ones, unique/shared/weak pointers, array incl. re-targeting a sliced object, a vector of 300 elements and a string of 186 characters cut down to a fraction and regrown) every single allocation call failing, every suffix of allocation calls failing, every pair and every triple, and then EVERY subset of the first n+3 call ordinals (n = allocation calls of the fault-free run; all nine scripts have n <= 12, so 2^15 plans at most) is executed (call ordinals counted within each execution); after every step the container is compared with a reference model and must either show the normal result or - only when a fault was injected in that step - the documented failure with the previous content intact; the script then continues, everything is cleared and the allocation layer audits leaks, double frees and foreign frees; all under AddressSanitizer.',
+        'claim': 'Exhaustive fault enumeration: for each of nine operation scripts (map, vector with constructor/destructor, string, wstring, hash incl. resize of a sized but still empty table and failed resize followed by later successful ones, strings incl. substr into a destination that holds something (with room: must not abort; too small: growth), unique/shared/weak pointers, array incl. re-targeting a sliced object, a vector of 300 elements and a string of 186 characters cut down to a fraction and regrown) every single allocation call failing, every suffix of allocation calls failing, every pair and every triple, and then EVERY subset of the first n+3 call ordinals (n = allocation calls of the fault-free run; all nine scripts have n <= 12, so 2^15 plans at most) is executed (call ordinals counted within each execution); after every step the container is compared with a reference model and must either show the normal result or - only when a fault was injected in that step - the documented failure with the previous content intact; the script then continues, everything is cleared and the allocation layer audits leaks, double frees and foreign frees; all under AddressSanitizer.',
         'note': 'Trusted: the scripts and their reference models; interposition of malloc/calloc/realloc with ld --wrap (every allocation the library makes goes through these). Fault sets of size <= 3 plus all suffixes; larger fault sets are not enumerated.',
         'technique': 'exhaustive enumeration of allocation-fault sets (deviation-bounded: 0,1,2,3 faults + all suffixes) over scripted histories on the real code, reference model per step',
         'jobs': [{'world': 'faultx', 'src': 'worlds/fault_world.c', 'lib': ['map.c', 'rbtree.c', 'bintree.c', 'vector.c', 'string.c', 'memory.c', 'array.c', 'common.c'], 'unity': True, 'flavours': RELDBG_ALWAYS}],
@@ -199,7 +199,7 @@ PROPS = {
     'C11': {
         'level': 'exploration',
         'engine': 'inputx',
-        'claim': 'Complete enumeration of a bounded input space: every array of length 0..7 (thorough 0..9) over a 4-letter key alphabet, each element carrying an identity tag, for element sizes {1,2,4,8} (fast paths) and {3,12,16,24} (memcpy path), selectors QUICK, QUICK_M, HEAP and the out-of-range values -1, 4, 2897234, through cstl_raw_array_sort on an exactly sized heap block (AddressSanitizer red zones on both sides and around the scratch element) and through __cstl_vector_sort with capacity == size and capacity > size; for the randomised quicksort every value every rand() call can return is enumerated depth-first for lengths <= 5 (thorough 6); linear find on every array, binary search on every sorted array for 9 probes (present, absent below/between/above), reverse through both entry points; the raw-array sorts also with a swap callback that ignores the (poisoned) scratch element and with a NULL scratch pointer while the allocator refuses every request; thorough adds 1000- and 4097-element sorted / reversed / constant / two-valued / organ-pipe / sawtooth inputs.',
+        'claim': 'Complete enumeration of a bounded input space: every array of length 0..7 (thorough 0..9) over a 4-letter key alphabet, each element carrying an identity tag, for element sizes {1,2,4,8} (fast paths) and {3,12,16,24} (memcpy path), selectors QUICK, QUICK_M, HEAP and the out-of-range values -1, 4, 2897234, through cstl_raw_array_sort on an exactly sized heap block (AddressSanitizer red zones on both sides and around the scratch element) and through __cstl_vector_sort with capacity == size and capacity > size; for the randomised quicksort every value every rand() call can return is enumerated depth-first for lengths <= 5 (thorough 6); linear find on every array, binary search on every sorted array for 9 probes (present, absent below/between/above) and with every element of the array itself as the probe, reverse through both entry points; the raw-array sorts also with a swap callback that ignores the (poisoned) scratch element and with a NULL scratch pointer while the allocator refuses every request; thorough adds 1000- and 4097-element sorted / reversed / constant / two-valued / organ-pipe / sawtooth inputs.',
         'note': 'Exhaustive within the stated bound, not a state-space search. Element counts above INT_MAX (the int indices of reverse/search) are not reachable by enumeration and are not claimed. A comparison-count watchdog turns non-termination into a violation.',
         'technique': 'exhaustive enumeration of all inputs up to a length bound x all algorithm selectors x all environment answers (rand), oracle = sorted permutation of the same tagged elements + ASan',
         'jobs': [{'world': 'sortx', 'src': 'worlds/sort_world.c', 'lib': ['array.c', 'vector.c', 'memory.c'], 'flavours': RELDBG_ALWAYS}],
@@ -230,7 +230,7 @@ PROPS = {
     'C20': {
         'level': 'exploration',
         'engine': 'confx',
-        'claim': 'Complete enumeration of a finite program family: 42 (entry point, argument position) pairs - every function of memory.h and array.h that reads, transfers or releases a guarded / unique / shared / weak pointer or an array object - x every object state (NULL / non-NULL; empty / owning / co-owned; empty / weak to live / weak to dead; empty / whole / slice) x copy kind (struct assignment, memcpy, relocation with the original storage scrubbed) x, for two-object calls, every state of the OTHER argument (empty; owning / weak to live memory / whole array; co-owned / weak to dead memory / slice; or the original the copy was made from): the call on the stray copy must end in abort() (not return, not an assertion, not a sanitizer report), and the same call on the original object must still work. The table is cross-checked against the declarations gcc -aux-info finds in the two headers; declared entry points missing from the table are reported in the evidence. The converse (properly moved objects never abort) is decided by the same check: the C05 and C14 closure searches (ptr and array worlds) run with their no-unexpected-abort oracle attributed to C20, every interleaving of the C06 scheduler scenarios runs with abort() inside the library as the only oracle, and 65535 to 70000 simultaneous owners / weak references / array views of one allocation are created and released with the library functions only.',
+        'claim': 'Complete enumeration of a finite program family: 42 (entry point, argument position) pairs - every function of memory.h and array.h that reads, transfers or releases a guarded / unique / shared / weak pointer or an array object - x every object state (NULL / non-NULL; empty / owning / co-owned; empty / weak to live / weak to dead; empty / whole / slice) x copy kind (struct assignment, memcpy, relocation with the original storage scrubbed) x, for two-object calls, every state of the OTHER argument (empty; owning / weak to live memory / whole array; co-owned / weak to dead memory / slice; or the original the copy was made from): the call on the stray copy must end in abort() (not return, not an assertion, not a sanitizer report), and the same call on the original object must still work. The table is cross-checked against the declarations gcc -aux-info finds in the two headers; declared entry points missing from the table are reported in the evidence. The converse (properly moved objects never abort) is decided by the same check: every initialising call (the *_init functions, guarded set, guarded copy as destination) on zero-filled, 0xA5-filled, 0xFF-filled storage and on the bytes of a live object, followed by ordinary use, must not abort; the C05 and C14 closure searches (ptr and array worlds) run with their no-unexpected-abort oracle attributed to C20, every interleaving of the C06 scheduler scenarios runs with abort() inside the library as the only oracle, and 65535 to 70000 simultaneous owners / weak references / array views of one allocation are created and released with the library functions only.',
         'note': 'Documented non-aborting calls are excluded: *_init, cstl_guarded_ptr_set and the destination of cstl_guarded_ptr_copy only write the guard (re-stamping it), cstl_array_size never touches the pointer.',
         'technique': 'exhaustive enumeration of entry point x argument position x object state x copy kind with an abort/return oracle under ASan; explicit-state closure search and exhaustive interleaving exploration of properly moved pointers with a no-abort oracle',
         'jobs': [{'world': 'stray', 'src': 'worlds/stray_world.c', 'gen': 'lib/gen_decls.py', 'lib': ['memory.c', 'array.c'], 'flavours': RELDBG_ALWAYS}, {'world': 'ptr', 'src': 'worlds/ptr_world.c', 'lib': ['memory.c'], 'flavours': RELDBG_ALWAYS}, {'world': 'array', 'src': 'worlds/array_world.c', 'lib': ['array.c', 'memory.c'], 'flavours': RELDBG_ALWAYS}, {'world': 'c06', 'src': 'worlds/c06_world.c', 'lib': ['memory.c'], 'san': ['-g', '-fsanitize=thread'], 'wsan': ['-g'], 'extra_src': ['engine/sched.c'], 'link': ['-Wl,--wrap=malloc,--wrap=calloc,--wrap=realloc,--wrap=free,--wrap=abort,--wrap=sched_yield'], 'flavours': RELDBG_ALWAYS}, BIG_JOB],
